@@ -197,7 +197,7 @@ def cosim_one(args):
                 out['problems'].append(('residue', (len(ch.rpc._request), len(ch.rpc._response)), 'chan%d' % i))
 
     ctx = vrt.run_scenario(scenario, refbroker.factory(policy), seed=seed, p_preempt=0.12, p_jump=0.1,
-                           repo_path=str(common.REPO))
+                           fair_time=(seed % 2 == 1), repo_path=str(common.REPO))
     out['abort'] = ctx.sched.abort_reason
     out['preemptions'] = ctx.sched.preemptions
     out['nchoices'] = len(ctx.choices)
